@@ -1089,6 +1089,22 @@ def install(reg):
             return z3.Exists([i], z3.And(inshape(i, a.shape), nz))
         raise U("numpy.any of this value", node)
 
+    @ax("numpy.allclose")
+    def allclose(ex, args, kw, node):
+        # numpy: all(|a - b| <= atol + rtol*|b|), defaults rtol=1e-5, atol=1e-8
+        a, b = args[0], args[1]
+        rtol = kw.get("rtol", args[2] if len(args) > 2 else 1e-5)
+        atol = kw.get("atol", args[3] if len(args) > 3 else 1e-8)
+        sb = scalar_of(b)
+        if isinstance(a, Arr) and sb is not None and isinstance(rtol, float) and isinstance(atol, float):
+            absb = z3.If(sb >= 0, sb, -sb)
+            tol = z3.RealVal(repr(atol)) + z3.RealVal(repr(rtol)) * absb
+            def close(i):
+                d = _num(a.elem(i)) - sb
+                return z3.And(d <= tol, -d <= tol)
+            return ex.ctx.forall_idx(close, a.shape)
+        raise U("numpy.allclose of these values", node)
+
     @ax("numpy.argwhere")
     def argwhere(ex, args, kw, node):
         a = args[0]
